@@ -72,19 +72,27 @@ static pthread_mutex_t g_mu = PTHREAD_MUTEX_INITIALIZER;
 static std::map<long, CaseInfo> g_cases;
 static std::string g_dir;
 
-static inline std::string filePath(int size)
+// file bodies: content is a function of (size, variant, offset) so that concurrent transfers of different files are distinguishable
+static inline unsigned char fileByte(int size, int i, int var = 0)
 {
-	std::string p = g_dir + "/f" + std::to_string(size);
+	return size <= 10 && var == 0 ? (unsigned char)('0' + i) : (unsigned char)((i * 7 + 3 + var * 31 + (i >> 8) * (var + 1)) & 255);
+}
+static inline std::string filePath(int size, int var = 0)
+{
+	std::string p = g_dir + "/f" + std::to_string(size) + "_" + std::to_string(var);
+	pthread_mutex_lock(&g_mu);
 	struct stat st;
 	if (stat(p.c_str(), &st) != 0)
 	{
-		FILE* f = fopen(p.c_str(), "wb");
-		for (int i = 0; i < size; i++) fputc(size <= 10 ? '0' + i : (i * 7 + 3) & 255, f);
+		std::string tmp = p + ".tmp";
+		FILE* f = fopen(tmp.c_str(), "wb");
+		for (int i = 0; i < size; i++) fputc(fileByte(size, i, var), f);
 		fclose(f);
+		rename(tmp.c_str(), p.c_str());
 	}
+	pthread_mutex_unlock(&g_mu);
 	return p;
 }
-static inline unsigned char fileByte(int size, int i) { return size <= 10 ? (unsigned char)('0' + i) : (unsigned char)((i * 7 + 3) & 255); }
 
 static inline std::string lower(std::string s) { for (size_t i = 0; i < s.size(); i++) s[i] = (char)tolower(s[i]); return s; }
 static inline std::string upper(std::string s) { for (size_t i = 0; i < s.size(); i++) s[i] = (char)toupper(s[i]); return s; }
@@ -132,7 +140,7 @@ struct TestHttpServer : public HttpServer
 		const std::string& kind = r["kind"].s();
 		if (kind == "bytes") resp.put(makeBody(r["blen"].i(), r["bseed"].ll()));
 		else if (kind == "json") resp.put(jsonValue(r["json"].i()));
-		else resp.put(File(filePath(r["fsize"].i()).c_str()));
+		else resp.put(File(filePath(r["fsize"].i(), r["fvar"].i()).c_str()));
 	}
 };
 
